@@ -121,6 +121,7 @@ def run_impl(steps):
     obs = []
     for st in steps:
         do = st["do"]
+        via = st.get("via", "method")
         r = "ok"
         try:
             with common.quiet():
@@ -130,18 +131,37 @@ def run_impl(steps):
                     w.reg(make_node(st))
                 elif do == "md":
                     w.nodes[st["node"]].metadata = emdfile.Metadata(name=st["name"], data={"c": st["content"]})
+                # every operation has a method spelling and one or two spellings through the dispatcher `.tree(...)`
                 elif do == "add":
-                    w.nodes[st["parent"]].add_to_tree(w.nodes[st["child"]])
+                    p_, c_ = w.nodes[st["parent"]], w.nodes[st["child"]]
+                    if via == "tree":
+                        p_.tree(c_)
+                    elif via == "tree2":
+                        p_.tree(add=c_)
+                    else:
+                        p_.add_to_tree(c_)
                 elif do == "force":
-                    w.nodes[st["parent"]].force_add_to_tree(w.nodes[st["child"]])
+                    p_, c_ = w.nodes[st["parent"]], w.nodes[st["child"]]
+                    if via in ("tree", "tree2"):
+                        p_.tree(c_, force=True)
+                    else:
+                        p_.force_add_to_tree(c_)
                 elif do == "graft":
-                    x = w.nodes[st["recv"]].graft(w.nodes[st["scion"]], merge_metadata=opt_py(st["opt"]))
+                    rv_, sc_, op_ = w.nodes[st["recv"]], w.nodes[st["scion"]], opt_py(st["opt"])
+                    if via == "tree":
+                        x = rv_.tree(graft=(sc_, op_))
+                    elif via == "tree2":
+                        x = rv_.tree(graft=sc_) if op_ is True else rv_.tree(graft=[sc_, op_])
+                    else:
+                        x = rv_.graft(sc_, merge_metadata=op_)
                     r = {"node": w.reg(x)} if x is not None else "ok"
                 elif do == "cut":
-                    x = w.nodes[st["node"]].cut(root_metadata=opt_py(st["opt"]))
+                    x = w.nodes[st["node"]].tree(cut=opt_py(st["opt"])) if via in ("tree", "tree2") else \
+                        w.nodes[st["node"]].cut(root_metadata=opt_py(st["opt"]))
                     r = {"node": w.reg(x)}
                 elif do == "get":
-                    x = w.nodes[st["node"]].get_from_tree(st["path"])
+                    n_ = w.nodes[st["node"]]
+                    x = n_.tree(st["path"]) if via == "tree" else (n_.tree(get=st["path"]) if via == "tree2" else n_.get_from_tree(st["path"]))
                     r = {"node": w.ids[id(x)]} if x is not None and id(x) in w.ids else "error"
                 else:
                     raise ValueError(do)
